@@ -298,6 +298,14 @@ func runShard(cfg ParentConfig, p *Property, shard, n int) (rep *Report, deaths,
 		if mm := fatalRe.Find(stderrB); mm != nil {
 			fatal = string(mm)
 		}
+		if harnessPanic(stderrB) {
+			tail := stderrB
+			if len(tail) > 1800 {
+				tail = tail[:1800]
+			}
+			inconcl = append(inconcl, fmt.Sprintf("shard %d: the harness itself panicked (not the code under test): %s", shard, string(tail)))
+			return nil, deaths, slow, inconcl
+		}
 		if idx == 0 {
 			tail := stderrB
 			if len(tail) > 1500 {
@@ -418,4 +426,28 @@ func writeEvidence(cfg ParentConfig, p *Property, m *Merged, workers, newV int, 
 	b, _ := json.MarshalIndent(ev, "", " ")
 	os.MkdirAll(filepath.Dir(cfg.Evidence), 0o755)
 	os.WriteFile(cfg.Evidence, b, 0o644)
+}
+
+// harnessPanic reports whether the worker died from a Go panic whose innermost
+// frame is harness code (a bug in the monitor), as opposed to a fatal runtime
+// error or a panic raised inside the code under test.
+func harnessPanic(stderr []byte) bool {
+	txt := string(stderr)
+	i := strings.Index(txt, "\npanic: ")
+	if !strings.HasPrefix(txt, "panic: ") && i < 0 {
+		return false
+	}
+	g := strings.Index(txt, "[running]:")
+	if g < 0 {
+		return false
+	}
+	rest := txt[g+len("[running]:"):]
+	for _, line := range strings.Split(rest, "\n") {
+		line = strings.TrimSpace(line)
+		if line == "" || strings.HasPrefix(line, "panic(") || strings.HasPrefix(line, "runtime.") || strings.HasPrefix(line, "/") {
+			continue
+		}
+		return strings.Contains(line, "/verifharness/")
+	}
+	return false
 }
